@@ -106,4 +106,92 @@ package jxpath
 //@   loop 0 invariant !(value == 0.0) || true
 //@   loop 1 invariant true
 
+// --- C19: date/time picture components ----------------------------------------------------------------------------------------------
+// ordinalSuffix: English ordinals - 1st 2nd 3rd, but 11th 12th 13th (also 111th, 212th, ...), everything else th
+//@ func ordinalSuffix
+//@   props C19 C09
+//@   requires n >= 0
+//@   ensures [C19:st] (n % 10 == 1 && n % 100 != 11) ==> streq(result, "st")
+//@   ensures [C19:nd] (n % 10 == 2 && n % 100 != 12) ==> streq(result, "nd")
+//@   ensures [C19:rd] (n % 10 == 3 && n % 100 != 13) ==> streq(result, "rd")
+//@   ensures [C19:th] (!(n % 10 == 1 && n % 100 != 11) && !(n % 10 == 2 && n % 100 != 12) && !(n % 10 == 3 && n % 100 != 13)) ==> streq(result, "th")
+//@   assigns nothing
+
+// pow10: 10^n without overflow for the widths it is used with (n <= 18), never 0 (it is a divisor in formatYear)
+//@ pred p10(i int, v int) = (i == 0 && v == 1) || (i == 1 && v == 10) || (i == 2 && v == 100) || (i == 3 && v == 1000) || (i == 4 && v == 10000) || (i == 5 && v == 100000) || (i == 6 && v == 1000000) || (i == 7 && v == 10000000) || (i == 8 && v == 100000000) || (i == 9 && v == 1000000000) || (i == 10 && v == 10000000000) || (i == 11 && v == 100000000000) || (i == 12 && v == 1000000000000) || (i == 13 && v == 10000000000000) || (i == 14 && v == 100000000000000) || (i == 15 && v == 1000000000000000) || (i == 16 && v == 10000000000000000) || (i == 17 && v == 100000000000000000) || (i == 18 && v == 1000000000000000000)
+//@ func pow10
+//@   props C19 C09
+//@   requires n <= 18
+//@   ensures [C19:power-of-ten] n >= 0 ==> p10(n, result)
+//@   ensures result >= 1
+//@   assigns nothing
+//@   loop 0 invariant 0 <= i && (n >= 0 ==> i <= n) && p10(i, val)
+//@ func abs
+//@   props C19 C09
+//@   requires n > MinInt64
+//@   ensures result == (n < 0 ? -n : n)
+//@   assigns nothing
+//@ func daysToWeeks
+//@   props C19 C09
+//@   ensures result == days / 7 + 1
+//@   assigns nothing
+//@ func isWhitespace
+//@   props C19 C09
+//@   ensures result == (r == 32 || r == 9 || r == 10 || r == 13 || r == 11)
+//@   assigns nothing
+//@ func isAllDigits
+//@   props C19 C09
+//@   ensures result ==> len(s) > 0
+//@   assigns nothing
+//@   loop 0 invariant 0 <= $pos && $pos <= len(s)
+//@ func countDigits
+//@   props C19 C09
+//@   ensures 0 <= result && result <= len(s)
+//@   assigns nothing
+//@   loop 0 invariant 0 <= $pos && $pos <= len(s) && 0 <= n && n <= $pos
+//@ func isDecimalFormat
+//@   props C19 C09
+//@   assigns nothing
+//@ func positionOfNthRune
+//@   props C19 C09
+//@   ensures [C19:nth-code-point] (0 <= n && n < runeCount(s)) ==> (0 <= result && result < len(s) && runeStart(s, result) && runesBefore(s, result) == n)
+//@   ensures (n < 0 || n >= runeCount(s)) ==> result == -1
+//@   assigns nothing
+//@   loop 0 invariant 0 <= $pos && $pos <= len(s) && runeStart(s, $pos) && i == runesBefore(s, $pos) && (n < 0 || i <= n)
+// bestFittingString: the first name that fits the width, else the first name cut at a code-point boundary
+//@ func bestFittingString
+//@   props C19 C09
+//@   opaque-arith
+//@   ensures len(values) == 0 ==> len(result) == 0
+//@   assigns nothing
+//@   loop 0 invariant -1 <= $i0 && maxlen > 0 && (forall k in [0, $i0 + 1): runeCount(values[k]) > maxlen)
+// formatNano: the 9 decimal digits of the nanosecond count, cut to the requested number of digits
+//@ func formatNano
+//@   props C19 C09
+//@   requires 0 <= n && 0 <= maxlen
+//@   ensures len(result) == (maxlen > 9 ? 9 : maxlen)
+//@   loop 0 invariant 0 <= start && start <= 9 && n >= 0
+//@   loop 0 decreases start
+// getTimezoneInfo: offset in whole hours and the remaining whole minutes (both with the sign of the offset)
+//@ func getTimezoneInfo
+//@   props C19 C09
+//@   ensures r1 * 3600 + r2 * 60 + (ret("time.Time.Zone#0", 1) % 60) == ret("time.Time.Zone#0", 1)
+// formatYear: only decimal formats; the year is cut to the requested width when it is 1..18 digits (one genuine
+// defect found and repaired: wider widths made 10^width wrap to 0 and the remainder divide by zero)
+//@ func formatIntegerComponent
+//@   props C19 C09
+//@   requires marker != nil
+//@   assigns nothing
+//@   trusted
+//@ func formatYear
+//@   props C19 C09
+//@   requires marker != nil
+//@   ensures [C19:only-decimal-year-formats] !ret("isDecimalFormat#0", 0) ==> (r1 == errUnsupported && len(r0) == 0)
+//@   atcall[C19:cut-to-width] pow10#0 requires callee_n == size && 1 <= size && size <= 18
+// formatHour: 24-hour clock as is; 12-hour clock: hours above 12 count from 1 again
+//@ func formatHour
+//@   props C19 C09
+//@   requires marker != nil
+//@   atcall[C19:twelve-hour-clock] formatIntegerComponent#0 requires callee_n == ((hour12 && ret("time.Time.Hour#0", 0) > 12) ? ret("time.Time.Hour#0", 0) - 12 : ret("time.Time.Hour#0", 0)) && callee_marker == marker
+
 // END OF CONTRACTS (package jxpath)
